@@ -72,6 +72,11 @@ def run(ck: Check, only=None):
     for atom, data in repetition_sweeps(quick):
         if not only or atom in only:
             direct(atom, data)
+    # sizes, last bytes and CR LF pairs exactly on multiples of block sizes (64 KiB, 1 MiB, ...)
+    from boundaries import block_boundary_loads
+    block_boundary_loads(ck, quick, lambda atom, name, data, line, t, out: oracle_roundtrip(ck, atom, data[:0] + data, line, t, out, extra={"file": name}) if (not only or atom in only) else None)
+    from boundaries import dump_at_part_counts
+    dump_at_part_counts(ck, quick)
     reload_same_object(ck)
     from scale import big_dump_identity, big_load_identity
     big_dump_identity(ck)
